@@ -122,6 +122,9 @@ func (m *gModel) inst(t *gTask, P, V string, hasV bool) *gInst {
 	m.byP[k] = in
 	m.order = append(m.order, in)
 	// guards (static)
+	if m.p.IncDefaultV {
+		hasV = true // the included Taskfile's top-level V is merged into the global vars: V is always defined
+	}
 	switch {
 	case t.Platform == "nomatch":
 		in.Skip = true
